@@ -116,7 +116,10 @@ impl SimSys {
     }
     pub fn args(&self) -> SimulatorArgs {
         let mut a = SimulatorArgs::new(self.network(), self.max_len, self.only_net);
-        a.max_sim_iterations = self.max_iter;
+        // 0 = no iteration bound: keep whatever SimulatorArgs::new chose (it must be "none")
+        if self.max_iter > 0 {
+            a.max_sim_iterations = self.max_iter;
+        }
         a.continue_after_all_normal_packets_processed = self.cont;
         a.only_client_events = self.only_client;
         a.max_padding_frac_client = self.fracs.0;
